@@ -477,7 +477,12 @@ pub enum Op {
     /// Pop try handler (normal completion)
     PopTry,
 
-    /// End of finally block - complete any pending return/throw
+    /// Start of a finally block: the completion that led here (normal, or a pending
+    /// return/throw/break/continue) becomes this block's own, kept on the try stack with
+    /// its value in r[value], so that a try statement nested in the block cannot lose it
+    FinallyStart { value: Register },
+
+    /// End of finally block - complete this block's pending return/throw/break/continue
     FinallyEnd,
 
     /// Get caught exception value: r[dst] = caught_exception
